@@ -37,7 +37,7 @@ class Node:
         self.bytes = None
 
 
-NAMES = ["#file.bin", "#a+b", "#x(1)", "#[z]", "#p|q", "#dot.", "#star*", "#q?", "#back\\slash", "#^caret$", "plain",
+NAMES = ["#app", "#app_ext", "#rad", "#rad_ext", "#cfg", "#line\n", "#file.bin", "#a+b", "#x(1)", "#[z]", "#p|q", "#dot.", "#star*", "#q?", "#back\\slash", "#^caret$", "plain",
          "#{n}", "# space", "#ünï"]
 
 
@@ -149,8 +149,16 @@ def pick_regex(r, names, what):
         return r.choice(["(?!)", "zzz_nothing", "#never.*"])
     if c < 0.5:
         return ".*"
-    if c < 0.7 and names:
+    if c < 0.6 and names:
         return re.escape(r.choice(names))
+    if c < 0.7 and names:
+        # a plain top-level alternation of exact names / of prefixes of names (every branch must match the WHOLE name)
+        picks = r.sample(names, min(len(names), r.randrange(2, 4)))
+        alts = [re.escape(n if r.random() < 0.6 else n[:max(2, len(n) - r.randrange(1, 5))]) for n in picks]
+        if r.random() < 0.5:
+            alts += ["#app", "#rad", "#cfg"]
+            r.shuffle(alts)
+        return "|".join(alts)
     if c < 0.85:
         return r.choice(["#dep_.*", "#sub\\..*", "dep-.*", "#dep.*|#sub.*|dep-.*"]) if what == "dep" else \
             r.choice(["#file.*", ".*1", "#.*\\.bin.*", "plain.*", "[^#].*"])
